@@ -1,4 +1,5 @@
 import TapkeeVerif.Proofs.LandmarksEuclid
+import TapkeeVerif.Proofs.LandmarksRatioOne
 /-!
 # C11 — landmark methods embed landmarks exactly and triangulate the rest consistently
 
@@ -7,6 +8,7 @@ Subjects: the executable model `Model/Landmarks.lean` (run at `Rat` by `model_c1
 landmarks `nl`, `d`, the ambient dimension `m` are arbitrary naturals; the eigensolver, `sqrt` and the shuffle are
 universally quantified parameters constrained only by their contracts (`IsEig`, `IsFactored`, `IsSqrt`, permutation).
 -/
+set_option linter.unusedSectionVars false
 namespace TapkeeVerif.Landmarks
 open TapkeeVerif Finset
 
@@ -43,5 +45,192 @@ theorem selectLandmarks_defined (perm : List Nat) (ratio : Rat) (hN : 0 < perm.l
   simp [h1, h2]
 
 example : ratioValid 8 (1 / 2) := by unfold ratioValid; norm_num
+
+/-! ## Landmark MDS -/
+section lmds
+variable {K : Type} [Field K] [CharZero K] [DecidableEq K] {N nl d m : Nat}
+
+theorem lmdsEmbed_ok_iff (δ : Mat N N K) (lm : Fin nl → Fin N) (V : Mat nl d K) (lam s : Vec d K) (Y : Mat N d K) :
+    lmdsEmbed δ lm V lam s = .ok Y ↔
+      d ≤ nl ∧ (∀ i, lam i ≠ 0) ∧ Y = triangulateRows δ lm (lmdsMu δ lm) (post V s) (divCols (post V s) lam) := by
+  unfold lmdsEmbed triangulate rightColsInBounds anyZero
+  by_cases hd : d ≤ nl
+  · by_cases hz : ∃ i, lam i = 0
+    · have : (List.finRange d).any (fun i => decide (lam i = 0)) = true := by
+        simpa [List.any_eq_true] using hz
+      simp only [hd, decide_true, Bool.not_true, Bool.false_eq_true, if_false, this, if_true]
+      constructor
+      · intro h; cases h
+      · rintro ⟨_, hne, _⟩; obtain ⟨i, hi⟩ := hz; exact absurd hi (hne i)
+    · have hz' : ∀ i, lam i ≠ 0 := fun i hi => hz ⟨i, hi⟩
+      have : (List.finRange d).any (fun i => decide (lam i = 0)) = false := by
+        simpa [List.any_eq_false] using hz'
+      simp only [hd, decide_true, Bool.not_true, Bool.false_eq_true, if_false, this]
+      constructor
+      · intro h; injection h with h; exact ⟨trivial, hz', h.symm⟩
+      · rintro ⟨_, _, rfl⟩; rfl
+  · simp only [hd, decide_false, Bool.not_false, if_true]
+    constructor
+    · intro h; cases h
+    · rintro ⟨h, _⟩; exact h.elim
+
+/-- **Landmark MDS embeds the landmarks exactly as MDS embeds that subset**: the matrix handed to the eigensolver is
+    the MDS matrix `mdsPre` (Model/Mds.lean, C05) of the callback restricted to the landmarks, and row `lm a` of the
+    result is row `a` of MDS's post-processing `post V s` of the same solver answer. -/
+theorem lmds_landmarks_eq_mds_of_subset (δ : Mat N N K) (lm : Fin nl → Fin N) (hinj : Function.Injective lm)
+    (V : Mat nl d K) (lam s : Vec d K) (Y : Mat N d K) (h : lmdsEmbed δ lm V lam s = .ok Y) :
+    lmdsB δ lm = mdsPre (subCallback δ lm) ∧ mdsEmbed V s = .ok (post V s) ∧ ∀ a, Y (lm a) = post V s a := by
+  obtain ⟨hd, _, rfl⟩ := (lmdsEmbed_ok_iff δ lm V lam s Y).mp h
+  refine ⟨rfl, ?_, ?_⟩
+  · simp [mdsEmbed, rightColsInBounds, hd]
+  · intro a
+    unfold triangulateRows
+    rw [landmarkPos_of_injective lm hinj a]
+
+/-- **Triangulation is consistent with the landmark embedding**: for every eigen-system `(V, lam)` of the landmark
+    matrix with nonzero eigenvalues (in particular whenever `B = Y Yᵀ` with `Y = V diag √lam`), the expression the
+    second loop of `triangulate` evaluates — `-½ (V diag(s/lam))ᵀ (δ² − μ)` with `μ` the column means taken BEFORE
+    centring — returns, on the distances of a landmark, exactly that landmark's row `V_a diag s`. -/
+theorem triangulate_fixes_landmarks (δ : Mat N N K) (lm : Fin nl → Fin N) (hnl : 0 < nl)
+    (hsym : ∀ a b, δ (lm a) (lm b) = δ (lm b) (lm a))
+    (V : Mat nl d K) (lam s : Vec d K) (heig : IsEig (lmdsB δ lm) V lam) (hl : ∀ i, lam i ≠ 0) (a : Fin nl) :
+    triangulateRow δ lm (lmdsMu δ lm) (divCols (post V s) lam) (lm a) = post V s a := by
+  have hn : (nl : K) ≠ 0 := by exact_mod_cast (Nat.pos_iff_ne_zero.mp hnl)
+  funext i
+  have hD : ∀ b, δ (lm a) (lm b) * δ (lm a) (lm b) = landmarkSqDist δ lm a b := by
+    intro b
+    unfold landmarkSqDist sqDistMatrix subCallback
+    by_cases hab : a ≤ b
+    · simp [hab]
+    · simp [hab, hsym a b]
+  unfold triangulateRow
+  rw [sumFin_eq_sum]
+  simp only [hD]
+  rw [triangulation_of_landmark_column δ lm hn V lam s heig hl a i]
+  rfl
+
+example : IsEig (lmdsB (fun i j : Fin 2 => if i = j then (0 : ℚ) else 2) id) (fun a _ => if a = 0 then 1 else -1 : Mat 2 1 ℚ)
+    (fun _ => 2) := by
+  intro a i
+  fin_cases a <;> simp [sumFin, List.finRange, lmdsB, scale, negHalf, centerMatrix, centerWith, colMeans, grandMean,
+    landmarkSqDist, sqDistMatrix, subCallback] <;> norm_num
+
+/-- **Exact recovery** (`_partial`: all `d` selected eigenvalues nonzero, i.e. the data have affine dimension exactly
+    `d`).  Euclidean input (`IsEuclidean`), the solver's answer is an eigen-system of the landmark matrix that carries
+    all of it (`IsFactored`: `rank ≤ d`), `sqrt` is exact, and every sample lies in the affine span of the landmarks
+    (`hspan`).  Then Landmark MDS returns an embedding and ALL pairwise squared distances — landmark/landmark,
+    landmark/other, other/other — equal the input's.  No bound on `N`, `nl`, `d`, `m`; `lm` need not be injective.
+
+    Full statement (FALSE of the code as it stands, see `lmds_exact_recovery_refuted`): the same with `hl` dropped
+    (affine dimension `≤ d`, some selected eigenvalues zero). -/
+theorem lmds_exact_recovery_partial (δ : Mat N N K) (X : Mat N m K) (lm : Fin nl → Fin N) (hnl : 0 < nl) (hd : d ≤ nl)
+    (hE : IsEuclidean δ X) (V : Mat nl d K) (lam s : Vec d K)
+    (heig : IsEig (lmdsB δ lm) V lam) (hfac : IsFactored (lmdsB δ lm) V lam) (hs : IsSqrt s lam)
+    (hl : ∀ i, lam i ≠ 0)
+    (hspan : ∀ x, ∃ w : Fin nl → K, ∀ k, X x k - centroid X lm k = ∑ a, w a * Zc X lm a k) :
+    ∃ Y, lmdsEmbed δ lm V lam s = .ok Y ∧ ∀ x y, sqDistRows Y x y = δ x y * δ x y := by
+  have hn : (nl : K) ≠ 0 := by exact_mod_cast (Nat.pos_iff_ne_zero.mp hnl)
+  refine ⟨_, (lmdsEmbed_ok_iff δ lm V lam s _).mpr ⟨hd, hl, rfl⟩, ?_⟩
+  -- every row is the linear map `Mmap` applied to `x − centroid`
+  have hrow : ∀ x i, triangulateRows δ lm (lmdsMu δ lm) (post V s) (divCols (post V s) lam) x i
+      = ∑ k, Mmap V lam s X lm i k * (X x k - centroid X lm k) := by
+    intro x i
+    unfold triangulateRows
+    cases hpos : landmarkPos? lm x with
+    | none => exact triangulateRow_eq δ X lm hn hE V lam s heig hl x i
+    | some a =>
+      have hax := landmarkPos_some lm x a hpos
+      have := landmark_row_eq δ X lm hn hE V lam s heig hl a i
+      simp only [post]
+      rw [← this]
+      apply Finset.sum_congr rfl; intro k _
+      unfold Zc; rw [hax]
+  intro x y
+  obtain ⟨wx, hwx⟩ := hspan x
+  obtain ⟨wy, hwy⟩ := hspan y
+  rw [hE x y, sqDistRows_eq, sqDistRows_eq]
+  have hdiff : ∀ k, X x k - X y k = ∑ a, (wx a - wy a) * Zc X lm a k := by
+    intro k
+    have : X x k - X y k = (X x k - centroid X lm k) - (X y k - centroid X lm k) := by ring
+    rw [this, hwx, hwy, ← Finset.sum_sub_distrib]
+    apply Finset.sum_congr rfl; intro a _; ring
+  have hY : ∀ i, triangulateRows δ lm (lmdsMu δ lm) (post V s) (divCols (post V s) lam) x i
+      - triangulateRows δ lm (lmdsMu δ lm) (post V s) (divCols (post V s) lam) y i
+      = ∑ k, Mmap V lam s X lm i k * ∑ a, (wx a - wy a) * Zc X lm a k := by
+    intro i
+    rw [hrow, hrow, ← Finset.sum_sub_distrib]
+    apply Finset.sum_congr rfl; intro k _
+    rw [← hdiff]; ring
+  simp only [hY, hdiff]
+  exact Mmap_isometry δ X lm hn hE V lam s heig hfac hs hl (fun a => wx a - wy a)
+
+/-- **`landmark_ratio = 1`, Landmark MDS = MDS.**  When every sample is a landmark (`lm` a permutation) and the
+    distance is symmetric, the matrix Landmark MDS decomposes is the MDS matrix `mdsPre δ` relabelled by `lm`; reading
+    the solver's answer `V'` through the relabelling gives an answer `V` for plain MDS that satisfies the same contract
+    (eigen-relation, orthonormality, same eigenvalues), and Landmark MDS returns exactly what MDS returns for it —
+    hence the same Gram matrix, and the same embedding up to the solver's own freedom (column signs). -/
+theorem ratio_one_eq_nonlandmark (δ : Mat N N K) (lm : Fin N → Fin N) (hbij : Function.Bijective lm)
+    (hsym : ∀ x y, δ x y = δ y x) (V' : Mat N d K) (lam s : Vec d K) (Y : Mat N d K)
+    (h : lmdsEmbed δ lm V' lam s = .ok Y) :
+    ∃ V : Mat N d K, (∀ a, V (lm a) = V' a) ∧
+      (∀ a b, lmdsB δ lm a b = mdsPre δ (lm a) (lm b)) ∧
+      (IsEig (lmdsB δ lm) V' lam → IsEig (mdsPre δ) V lam) ∧
+      (IsOrthonormal V' → IsOrthonormal V) ∧
+      mdsEmbed V s = .ok Y ∧ gramRows Y = gramRows (post V s) := by
+  let e := Equiv.ofBijective lm hbij
+  have hV : ∀ a, (fun x => V' (e.symm x)) (lm a) = V' a := by
+    intro a
+    have : e.symm (lm a) = a := e.symm_apply_apply a
+    simp only [this]
+  obtain ⟨hd, _, rfl⟩ := (lmdsEmbed_ok_iff δ lm V' lam s Y).mp h
+  have hY : triangulateRows δ lm (lmdsMu δ lm) (post V' s) (divCols (post V' s) lam) = post (fun x => V' (e.symm x)) s := by
+    funext x
+    obtain ⟨a, rfl⟩ := hbij.2 x
+    unfold triangulateRows
+    rw [landmarkPos_of_injective lm hbij.1 a]
+    funext i
+    simp only [post, hV]
+  refine ⟨fun x => V' (e.symm x), hV, lmdsB_relabel δ hsym lm hbij, ?_, ?_, ?_, ?_⟩
+  · exact isEig_relabel _ _ lm hbij (lmdsB_relabel δ hsym lm hbij) V' _ hV lam
+  · exact isOrthonormal_relabel lm hbij V' _ hV
+  · rw [hY]; simp [mdsEmbed, rightColsInBounds, hd]
+  · rw [hY]
+
+/-! ### in-bounds -/
+
+/-- `rightCols(d)` of an `n`-column matrix stays inside it exactly when `d ≤ n` -/
+theorem rightCols_inbounds_iff (n d : Nat) : rightColsInBounds n d = true ↔ d ≤ n := by
+  simp [rightColsInBounds]
+
+/-- Landmark MDS reaches the out-of-bounds state exactly when `target_dimension` exceeds the number of landmarks -/
+theorem lmds_oob_iff (δ : Mat N N K) (lm : Fin nl → Fin N) (V : Mat nl d K) (lam s : Vec d K) :
+    lmdsEmbed δ lm V lam s = .error .oob ↔ nl < d := by
+  unfold lmdsEmbed triangulate rightColsInBounds
+  by_cases hd : d ≤ nl
+  · simp only [hd, decide_true, Bool.not_true, Bool.false_eq_true, if_false]
+    constructor
+    · intro h; split at h <;> cases h
+    · intro h; omega
+  · simp only [hd, decide_false, Bool.not_false, if_true, true_iff]
+    omega
+
+end lmds
+
+/-- **The validation of both landmark methods does not ensure `d ≤ n_landmarks`** (F-LANDMARK-DIM): `N = 8`,
+    `landmark_ratio = 1/2`, `target_dimension = 5` passes `InClosedRange(3/N, 1)` and `InRange(1, N)`, selects
+    `4` landmarks, and `rightCols(5)` of the `4 × 4` eigenvector matrix is out of bounds. -/
+theorem validation_does_not_bound_dimension :
+    ∃ (N d : Nat) (ratio : Rat), ratioValid N ratio ∧ dimValid N d ∧
+      rightColsInBounds (landmarkCount N ratio) d = false := by
+  refine ⟨8, 5, 1 / 2, ?_, ?_, ?_⟩
+  · unfold ratioValid; norm_num
+  · unfold dimValid; omega
+  · have : landmarkCount 8 (1 / 2) = 4 := by
+      unfold landmarkCount
+      have : (((8 : Nat) : Rat) * (1 / 2)) = ((4 : Int) : Rat) := by norm_num
+      rw [this, Rat.floor_intCast]
+      rfl
+    rw [this]
+    rfl
 
 end TapkeeVerif.Landmarks
